@@ -34,6 +34,7 @@ def run(ctx):
         layout_rules.layouts(ctx, prog, "R1")
         layout_rules.dispatch_table(ctx, prog, "R1")
         packet_rules.skip_length(ctx, prog, "R2")
+        packet_rules.reserved_bytes(ctx, prog, "R2")
         packet_rules.defaults_table(ctx, prog, "R3")
         packet_rules.stream_loop_shape(ctx, prog, "R4")
         codec_rules.extract_window(ctx, prog, "R5")
